@@ -219,6 +219,15 @@ fn receive(cx: &mut Cx, mode: Mode, s: Sess, bsig: Bytes, blind: Opt, issuer: No
         for _ in 0..4 { let mut g = f.clone(); let bit = cx.ch.choose("pk_bit", 768) as usize; flip(&mut g.pk, bit); deliver_cred(cx, holder, g, "store_pk_bitflip".into(), ideal.clone()); }
         { let mut g = f.clone(); g.suite = f.suite.other(); deliver_cred(cx, holder, g, "misroute_suite".into(), ideal.clone()); }
         { let mut g = f.clone(); g.plain_endpoint = true; deliver_cred(cx, holder, g, "misroute_interface".into(), ideal.clone()); }
+        // the reverse misroute: a PLAIN signature by the same key over the same header and messages,
+        // offered at the blind endpoint without committed messages and without a blind factor (a
+        // blind verifier with a "no extension on the signer's side" fallback takes it)
+        {
+            let (s5, f5, ideal5) = (s.clone(), f.clone(), ideal.clone());
+            cx.step(issuer, "plain-sign", StepOpts::default(), move || api::sign(s5.suite, &s5.sk, &s5.pk, &s5.header, &s5.msgs), move |cx, st| {
+                if let Ok(Ok(sig)) = st.out { let mut g = f5.clone(); g.sig = sig; g.committed = None; g.blind = None; cx.count("probe.plain_signature_at_the_blind_endpoint"); deliver_cred(cx, holder, g, "forged:plain_signature_at_the_blind_endpoint".into(), ideal5.clone()); }
+            });
+        }
         let ikm2 = bytes_for(cx.run_seed, b"ikm-other", 0, 32);
         let (f5, ideal5, suite) = (f.clone(), ideal.clone(), s.suite);
         cx.step(issuer, "keygen_other", StepOpts::default(), move || api::keygen(suite, &ikm2, None, None), move |cx, st| {
